@@ -473,10 +473,12 @@ def run_kani_job(scratch, job, playback=False, only=None):
         r['job_wall_s'] = wall
         r['raw'] = per.get(key, out[-3000:]) if key else out[-3000:]
         results.append(r)
-    if job.get('io_error_unwind') and 'invalid loop identifier' in out:
+    if job.get('io_error_unwind'):
         # the function is not part of some harness' goto program (no io::Error in reach, or the
-        # toolchain changed): those harnesses run again without the limit
-        again = [r['harness'] for r in results if r['result'] == UNDECIDED]
+        # toolchain changed): CBMC rejects the option ("invalid loop identifier", shown by Kani only
+        # as "CBMC failed with status 1"); those harnesses run again without the limit
+        again = [r['harness'] for r in results if r['result'] == UNDECIDED and
+                 ('CBMC failed with status' in (r.get('reason') or '') + str(r.get('raw') or '') or 'invalid loop identifier' in str(r.get('raw') or ''))]
         if again:
             j2 = dict(job)
             j2.pop('io_error_unwind')
